@@ -2,6 +2,7 @@ import VelaVerif.Lemmas.SchedMem
 import VelaVerif.Lemmas.SchedLive
 import VelaVerif.Lemmas.SchedFast
 import VelaVerif.Lemmas.SchedFastAssert
+import VelaVerif.Lemmas.SchedFastTotal
 import VelaVerif.Spec.SchedMem
 /-!
 # C12 / C02 — what the scheduler assumes a schedule needs is what the schedule really needs
@@ -339,6 +340,20 @@ theorem fast_storage_assertion_holds (lrs : List FLR) (ct : Nat) (limit : Int) (
     (hids : (lrs.map (·.id)).Nodup) (hT : temporalUsage (lrs.map (·.tlr)) ct = .ok maxU) :
     useFastStorage lrs ct limit ≠ .error .assert_ :=
   useFastStorage_no_assert lrs ct limit maxU hids hT
+
+/-- **fast_storage_total.**  Total correctness: for every set of ranges with distinct identities in which no range ends after
+    tick `current_time + 2` (the assertion of `get_temporal_memory_usage`) and every movable range was marked and lies inside
+    the usage array (`start ≤ end ≤ current_time + 1`, as every range `extract_live_ranges_from_schedule` marks does), belongs to
+    the target area, and no tick holds 2 GiB: `use_fast_storage_for_feature_maps` **returns** — no AssertionError, IndexError
+    or ValueError — and what it leaves in fast storage fits `max(limit, immovable part)` at every tick. -/
+theorem fast_storage_total (lrs : List FLR) (ct : Nat) (limit : Int)
+    (hids : (lrs.map (·.id)).Nodup) (hend : ∀ lr ∈ lrs, lr.end_ ≤ ct + 2)
+    (hin : ∀ lr ∈ lrs, lr.scratched = true → lr.Inside (ct + 2))
+    (harea : ∀ lr ∈ lrs, lr.scratched = true → lr.inArea = true)
+    (hb : ∀ t, Spec.SchedMem.usageAt ((lrs.map (·.tlr)).filterMap TLR.toRng) t < 2147483648) :
+    ∃ r, useFastStorage lrs ct limit = .ok r ∧ Spec.SchedMem.FastStorageFits (frngs lrs r.st.evicted) limit (ct + 2) := by
+  obtain ⟨r, hr⟩ := useFastStorage_total lrs ct limit hids hend hin
+  exact ⟨r, hr, fast_storage_within_limit lrs ct limit r hids harea hb hr⟩
 
 /-- the loop "Force all OFMs to fast-storage" moves only what the Spec allows: no feature map that is read outside the NPU
     subgraph, no variable tensor write (the guard seeded change C12-r3m2 weakened) -/
